@@ -64,7 +64,7 @@ def jobs(tier, seed):
         pass
     chunk = 40 if tier == "quick" else 120
     out = [("histories", tuple(seqs[i : i + chunk])) for i in range(0, len(seqs), chunk)]
-    out += [("std_range",), ("bound", "two"), ("bound", "lower"), ("bound", "upper"), ("bound", "custom")]
+    out += [("shared_r",), ("std_range",), ("bound", "two"), ("bound", "lower"), ("bound", "upper"), ("bound", "custom")]
     npairs = len(_tie_pairs())
     tl = 3 if tier == "quick" else 4
     tseqs = [s_ for n in range(1, tl + 1) for s_ in itertools.product(range(npairs), repeat=n)]
@@ -302,6 +302,51 @@ def job_ties(ss, seqs):
             else:
                 ss.prove("ties.assign_local[%s,%s]" % (stag, n), F, far(_val(vm, n), before[n], 0), key="ties.assign", payload=pay, timeout=30, describe="names outside the group keep their value")
     ss.note(name="vm.ties", states=max(states, 1), transitions=max(states, 1), sequences=len(seqs))
+
+
+def job_shared_r(ss):
+    """two polar complex parameters sharing their magnitude (set_share_r: a tie group on pr, qr) and a second,
+    later tie group on real parameters: standard_complex (what a fit runs before it reads the parameters back)
+    preserves the complex value of every parameter, for every sign of the shared magnitude"""
+    import tensorflow as tf
+    from symx import symtf
+    from tf_pwa.variable import VarsManager
+
+    def run():
+        symtf.reset_state()
+        vm = VarsManager(dtype=tf.float64)
+        vm.add_complex_var("p", polar=True)
+        vm.add_complex_var("q", polar=True)
+        vm.add_complex_var("u", polar=True)
+        vm.add_real_var("t1", value=1.0)
+        vm.add_real_var("t2", value=1.0)
+        vm.set_share_r(["p", "q"])
+        vm.set_same(["t1", "t2"])
+        vm.variables["pr"].assign(tensor_of(S.real("r")))
+        vm.variables["pi"].assign(tensor_of(S.angle("phi_p", D=1)))
+        vm.variables["qi"].assign(tensor_of(S.angle("phi_q", D=1)))
+        vm.variables["ur"].assign(tensor_of(S.real("ru")))
+        vm.variables["ui"].assign(tensor_of(S.angle("phi_u", D=1)))
+        before = {n: _complex_value(vm, n) for n in ("p", "q", "u")}
+        vm.standard_complex()
+        after = {n: _complex_value(vm, n) for n in ("p", "q", "u")}
+        return vm, before, after
+
+    ex = fork.Explorer(max_paths=16, max_depth=12, timeout_s=10, total_s=300)
+    n = 0
+    for path in ex.run(run):
+        n += 1
+        if path.error is not None:
+            ss._rec(kind="obligation", name="vm.shared_r.path_error[%d]" % n, key="vm.shared_r", status="error", error="%s: %s" % (type(path.error).__name__, str(path.error)[:200]))
+            continue
+        vm, before, after = path.result
+        F = list(path.ctx.facts) + list(path.pc)
+        pay = lambda m: dict(kind="shared_r", model={k: float(v) for k, v in m.items() if not k.startswith(("sqrt#", "uf_"))})
+        for nm in ("p", "q", "u"):
+            ss.prove("vm.shared_r.complex_value[path=%d,%s]" % (n, nm), F, T.bor(far(after[nm][0], before[nm][0], 0), far(after[nm][1], before[nm][1], 0)), key="vm.shared_r", payload=pay, timeout=60,
+                     describe="standard_complex preserves r e^{i phi} of parameters sharing their magnitude (tie group registered before another one) and of an unconstrained one")
+        ss.witness("vm.shared_r.reach[path=%d]" % n, F)
+    ss.note(name="vm.shared_r", states=max(n, 1), transitions=max(n, 1))
 
 
 def job_std_range(ss):
